@@ -79,6 +79,8 @@ inductive Ev where
   | moved (item dest : Nat)                      -- `item` moved itself into `dest`
   | movedNone (item dest : Nat)                  -- ... refused
   | hookMoved (item : Nat)                       -- move_or_destruct() returned and the item is somewhere else: it survives
+  | coBegin (o : Nat)                            -- call_out callback of o entered (dispatched by call_heart_beat after the round)
+  | coEnd (o : Nat)                              -- ... returned
   | passLimit                                    -- harness rule: no further timer tick is delivered inside this `tick`
   | junk (s : String)                            -- crash / sanitizer / unparsable line
   deriving Repr, DecidableEq
@@ -310,6 +312,10 @@ def judge1 (j : JState) (e : Ev) : JState :=
   | .moved _ _ => j
   | .movedNone _ _ => j
   | .hookMoved i => if j.alive i then j else j.flagV s!"moved-item-is-gone {showOid i}"
+  -- a call_out callback is ordinary code outside every heart_beat: whatever it does - an uncaught error included - is
+  -- judged by the clauses of the operations it performs; in particular `.err` switches off nobody here (`cur` is none)
+  | .coBegin _ => j
+  | .coEnd _ => j
   | .passLimit =>
     if j.expect != .idle then j.flagV "pass-limit-inside-round" else { j with trunc := false }
   | .cgAfter v =>
